@@ -120,7 +120,7 @@ def run(ck):
         1 for (t, _r), _v in pairs if t["facts"]["after_bind_layer"])
     # 3. code -> spec: random programs
     tasks = []
-    for i in range(450 if quick else 10000):
+    for i in range(700 if quick else 10000):
         p = gen_program(rng, names_bias=(i % 3 == 0))
         strat = ["random", rng.randrange(10 ** 9), 0.6] if i % 4 else ["pct", rng.randrange(10 ** 9), 3, 400]
         tasks.append({"scen": "bind", "params": p, "strat": strat, "gran": "line" if i % 6 == 0 else "sync",
